@@ -371,7 +371,8 @@ Proof.
     assert (J1 : Jc id s1) by (eapply (Jc_kept id s); [cbn; lia|apply kept_alter, mild_clear|exact J]).
     apply (j_bind id (set_tracker None s1)); [apply (Grc (n_cleanups nd) (set_tracker None s1) W1)|apply (Jrc (n_cleanups nd) (set_tracker None s1) W1 J1)|]. intros [] s2 _ W2 _ J2.
     apply (j_bind id (set_tracker (tracker s1) s2)); [apply (Gdl (n_children nd) (set_tracker (tracker s1) s2) W2)|apply (Jdl (n_children nd) (set_tracker (tracker s1) s2) W2 J2)|]. intros [] s4 _ W4 _ J4.
-    destruct (alive i s4); [|exact J4].
+    destruct (nodes s4 !! i) as [nd'|]; [|exact J4].
+    match goal with |- context [if ?b then _ else _] => destruct b end; [apply Jdc; assumption|].
     eapply (Jc_kept id s4); [cbn; lia|apply kept_alter, mild_context'|exact J4].
   - (* run_cleanups *)
     intros cs s W J. rewrite run_cleanups_S. destruct cs as [|c r]; [exact J|].
